@@ -205,9 +205,23 @@ pub struct World<C: MlsConfig, E: ExternalMlsConfig> {
     pub msgs: HashMap<String, Vec<u8>>,
     pub trees: HashMap<String, Vec<u8>>,
     pub intern: Intern,
+    pub suite_ids: HashMap<(String, u16), (SignatureSecretKey, SigningIdentity)>,
 }
 
 impl<C: MlsConfig, E: ExternalMlsConfig + Clone> World<C, E> {
+    /// the same basic identity with a signature key of ANOTHER cipher suite (re-init to a new suite);
+    /// one key per (member, suite), so that key package, commit and join of one member agree
+    fn suite_identity(&mut self, who: &str, suite: u16) -> Result<(SignatureSecretKey, SigningIdentity), String> {
+        use mls_rs_core::crypto::{CipherSuiteProvider, CryptoProvider};
+        if let Some(x) = self.suite_ids.get(&(who.to_string(), suite)) {
+            return Ok(x.clone());
+        }
+        let cs = mls_rs_crypto_openssl::OpensslCryptoProvider::default().cipher_suite_provider(CipherSuite::from(suite)).ok_or("nosuite")?;
+        let (sk, pk) = cs.signature_key_generate().map_err(|e| format!("{e:?}"))?;
+        let ident = SigningIdentity::new(BasicCredential::new(who.as_bytes().to_vec()).into_credential(), pk);
+        self.suite_ids.insert((who.to_string(), suite), (sk.clone(), ident.clone()));
+        Ok((sk, ident))
+    }
     fn msg(&self, id: &str) -> Result<MlsMessage, String> {
         let b = self.msgs.get(id).ok_or(format!("no message {id}"))?;
         MlsMessage::from_bytes(b).map_err(|e| format!("decode:{}", err_name(&e)))
@@ -537,7 +551,7 @@ impl<C: MlsConfig, E: ExternalMlsConfig + Clone> World<C, E> {
                 let reinit = op["reinit"].as_bool().unwrap_or(false);
                 let new_gid = op["new_gid"].as_str().map(|s| hex::decode(s).unwrap_or_default());
                 let detached = op["detached"].as_bool().unwrap_or(false);
-                let suite = self.suite;
+                let suite = CipherSuite::from(op["new_suite"].as_u64().unwrap_or(u16::from(self.suite) as u64) as u16);
                 let g = grp!();
                 let mut b = g.commit_builder();
                 for kp in kps {
@@ -1071,7 +1085,10 @@ impl<C: MlsConfig, E: ExternalMlsConfig + Clone> World<C, E> {
             "reinit_kp" => {
                 let g = grp!().clone();
                 // "as": come back under the identity of another configured party (replaced identity)
-                let alt = op["as"].as_str().and_then(|n| self.members.get(n)).map(|m| (m.signer.clone(), m.identity.clone()));
+                let alt = match op["new_suite"].as_u64() {
+                    Some(ns) => Some(self.suite_identity(&who, ns as u16)?),
+                    None => op["as"].as_str().and_then(|n| self.members.get(n)).map(|m| (m.signer.clone(), m.identity.clone())),
+                };
                 let rc = match alt {
                     Some((sk, idn)) => mls!(g.get_reinit_client(Some(sk), Some(idn))),
                     None => mls!(g.get_reinit_client(None, None)),
@@ -1087,7 +1104,10 @@ impl<C: MlsConfig, E: ExternalMlsConfig + Clone> World<C, E> {
                 }
                 let g = grp!().clone();
                 // "as": the creator of the successor comes back under another configured party's identity
-                let alt = op["as"].as_str().and_then(|n| self.members.get(n)).map(|m| (m.signer.clone(), m.identity.clone()));
+                let alt = match op["new_suite"].as_u64() {
+                    Some(ns) => Some(self.suite_identity(&who, ns as u16)?),
+                    None => op["as"].as_str().and_then(|n| self.members.get(n)).map(|m| (m.signer.clone(), m.identity.clone())),
+                };
                 let rc = match alt {
                     Some((sk, idn)) => mls!(g.get_reinit_client(Some(sk), Some(idn))),
                     None => mls!(g.get_reinit_client(None, None)),
@@ -1119,7 +1139,10 @@ impl<C: MlsConfig, E: ExternalMlsConfig + Clone> World<C, E> {
                 for wid in cands {
                     let w = self.msg(&wid)?;
                     let g = grp!().clone();
-                    let alt = op["as"].as_str().and_then(|n| self.members.get(n)).map(|m| (m.signer.clone(), m.identity.clone()));
+                    let alt = match op["new_suite"].as_u64() {
+                    Some(ns) => Some(self.suite_identity(&who, ns as u16)?),
+                    None => op["as"].as_str().and_then(|n| self.members.get(n)).map(|m| (m.signer.clone(), m.identity.clone())),
+                };
                     let r = if kind == "reinit_join" {
                         match (match alt { Some((sk, idn)) => g.get_reinit_client(Some(sk), Some(idn)), None => g.get_reinit_client(None, None) }) {
                             Ok(rc) => rc.join(&w, tree.clone(), None).map(|x| x.0),
@@ -1226,7 +1249,7 @@ impl<C: MlsConfig, E: ExternalMlsConfig + Clone> World<C, E> {
 
 pub fn run_world<C: MlsConfig, E: ExternalMlsConfig + Clone + 'static>(script: &Value, mk: &dyn Fn(&Spec, &Parts, CipherSuite) -> Client<C>, mk_obs: fn(Option<u64>, Option<(SignatureSecretKey, SigningIdentity)>, bool) -> ExternalClient<E>, dir: &std::path::Path) -> i32 {
     let suite = CipherSuite::from(script["suite"].as_u64().unwrap_or(1) as u16);
-    let mut world = World { observers: BTreeMap::new(), obs_signer: BTreeMap::new(), obs_nocache: Default::default(), mk_obs: Box::new(mk_obs), suite, members: BTreeMap::new(), msgs: HashMap::new(), trees: HashMap::new(), intern: Intern { map: HashMap::new() } };
+    let mut world = World { observers: BTreeMap::new(), obs_signer: BTreeMap::new(), obs_nocache: Default::default(), mk_obs: Box::new(mk_obs), suite, members: BTreeMap::new(), msgs: HashMap::new(), trees: HashMap::new(), intern: Intern { map: HashMap::new() }, suite_ids: HashMap::new() };
     for m in script["members"].as_array().cloned().unwrap_or_default() {
         let spec = Spec {
             name: m["name"].as_str().unwrap_or("?").to_string(),
